@@ -1001,7 +1001,17 @@ def canon(tree: list) -> list:
                     else:
                         out.append(If(n.cond, [a], [b], n.line))
             else:
-                out.append(If(n.cond, then, orelse, n.line))
+                cond = n.cond
+                # canonical arm order when both arms carry something: the arm with more named fields first (then the
+                # longer one) - reader and writer may test a presence from opposite sides (`if flag:` / `if x is None:`)
+                if then and orelse:
+                    def weight(arm: list) -> tuple:
+                        items = [x for x in arm if isinstance(x, Item)]
+                        return (sum(1 for x in items if x.kind == 'field' and x.name),
+                                sum(x.bits for x in items if isinstance(x.bits, int)), len(arm))
+                    if weight(orelse) > weight(then):
+                        cond, then, orelse = negate_cond(cond), orelse, then
+                out.append(If(cond, then, orelse, n.line))
         out.extend(post)
     return out
 
